@@ -37,6 +37,10 @@ pub fn gen_plan(rng: &mut Rng, focus: &str, tier: &str, case_idx: u64) -> Plan {
     // one fixed C06 shape per run: every chunk-boundary offset of the stack pointer among the threads that the size limit shortens
     let boundary = focus == "c06" && case_idx == 1;
     // one fixed C20 shape per run: sanitising on, the principal mapping writable and not executable, referenced from stack words only
+    // a third fixed C20 shape: the crash context's stack pointer lies in no mapping (nothing within the guard distance either)
+    // and its instruction pointer outside the principal mapping: the crash thread's stack cannot be located, which is a
+    // soft matter, not a reason to fail the dump
+    let lost_crash_stack = focus == "c20" && case_idx == 3;
     let stack_only = focus == "c20" && (case_idx == 1 || case_idx == 2);
     let low_principal = focus == "c20" && case_idx == 2;     // the principal mapping lies BELOW the executable
     let many = boundary || (focus == "c06" && rng.chance(1, 2));
@@ -75,6 +79,7 @@ pub fn gen_plan(rng: &mut Rng, focus: &str, tier: &str, case_idx: u64) -> Plan {
         }
     }
     let blame_late = focus == "c06" && many && !boundary && rng.chance(1, 2);
+    if lost_crash_stack { return Plan { scen: Scenario { threads, lines }, blame_late: false, crash: 1, limit: None, sanitize: false, user_maps: vec![], skip: 6, napp }; }
     if stack_only { return Plan { scen: Scenario { threads, lines }, blame_late: false, crash: 0, limit: None, sanitize: !low_principal, user_maps: vec![], skip: if low_principal { 5 } else { 4 }, napp }; }
     Plan { scen: Scenario { threads, lines }, blame_late, crash: if blame_late { 2 } else if force_k1 { 3 } else if focus == "c05" || focus == "c07" { rng.below(4) as u8 } else if rng.chance(1, 3) { rng.range(1, 2) as u8 } else { 0 },
            limit: if blame_late || boundary { Some(1) } else if focus == "c06" { if rng.chance(2, 3) { Some(*rng.pick(&[1u64, 1000, 100_000, 200_000, 300_000, 1 << 30])) } else { None } } else if rng.chance(1, 6) { Some(1) } else { None },
@@ -102,6 +107,7 @@ pub fn configure(rng: &mut Rng, plan: &Plan, target: &Target) -> Configured {
         // the context's own thread-id field is not what decides who is blamed (the id given to the writer is):
         // unset, another live thread, or arbitrary in half of the cases
         match rng.below(6) { 0 => cc.inner.tid = 0, 1 if nth > 0 => cc.inner.tid = target.tids[rng.below(nth as u64) as usize], 2 => cc.inner.tid = (rng.next() >> 40) as i32, _ => {} }
+        let (sp, ip) = if plan.skip == 6 { (0x2000u64, anon[2] + 0x10) } else { (sp, ip) };
         cc.inner.context.uc_mcontext.gregs[libc::REG_RSP as usize] = sp as i64;
         cc.inner.context.uc_mcontext.gregs[libc::REG_RIP as usize] = ip as i64;
         let copy = CrashContext { inner: cc.inner.clone() };
@@ -117,6 +123,7 @@ pub fn configure(rng: &mut Rng, plan: &Plan, target: &Target) -> Configured {
         if plan.skip == 2 { principal = Some(0x10); }
         if plan.skip == 4 { principal = Some(anon[1] + 0x80); }
         if plan.skip == 5 { principal = Some(0x2000_0080); }
+        if plan.skip == 6 { principal = Some(anon[0] + 0x100); }
         if let Some(p) = principal { writer.set_principal_mapping_address(p as usize); }
     }
     if !plan.user_maps.is_empty() {
@@ -163,13 +170,18 @@ pub fn run_reuse(a: &Args) {
         if plan.crash == 3 { plan.crash = 2; }   // an unattachable blamed thread is the recorded finding K1 of C05
         // one fixed history per run: a size limit that the first request's estimate fits and - after the target has grown
         // past 20 threads - the second request's does not
+        // (the exec history uses no option that names an address of the old image: those would be stale by the caller's own doing)
+        if case_idx == 1 { plan.scen.lines.retain(|l| !l.starts_with("appmem")); plan.napp = 0; plan.crash = 0; plan.skip = 0; plan.blame_late = false; }
         let grow = case_idx == 0;
         if grow { plan.scen.threads.truncate(3); for t in plan.scen.threads.iter_mut() { if t.kind == Kind::NullSp { t.kind = Kind::Block; } t.at = None; } plan.limit = Some(200_000); plan.blame_late = false; plan.skip = 0; }
         // a thread that can be told to exit between two dumps (the target changes)
-        let exiter = if !grow && rng.chance(1, 2) { plan.scen.threads.push(ThreadSpec { kind: Kind::Exiter, sp_off: 0, pages: 2, name: Some(b"exiter".to_vec()), at: None }); Some(plan.scen.threads.len() - 1) } else { None };
+        let exiter = if !grow && case_idx != 1 && rng.chance(1, 2) { plan.scen.threads.push(ThreadSpec { kind: Kind::Exiter, sp_off: 0, pages: 2, name: Some(b"exiter".to_vec()), at: None }); Some(plan.scen.threads.len() - 1) } else { None };
         let mut target = match Target::spawn(&plan.scen, &work) { Ok(t) => t, Err(e) => { out.notes.push(format!("case skipped: {e}")); continue; } };
-        let mut cfg = configure(&mut rng, &plan, &target);
-        let ndumps = if grow { 2 } else { rng.range(2, if a.tier == "thorough" { 5 } else { 3 }) };
+        let cfg_seed = rng.next();
+        let mut cfg = configure(&mut Rng(cfg_seed), &plan, &target);
+        // another fixed history: between two requests the target replaces its program image (same pid, new auxiliary vector)
+        let reexec = case_idx == 1;
+        let ndumps = if grow || reexec { 2 } else { rng.range(2, if a.tier == "thorough" { 5 } else { 3 }) };
         out.count(&format!("dumps.{ndumps}"));
         for k in 0..ndumps {
             if k == 1 && grow {
@@ -179,10 +191,18 @@ pub fn run_reuse(a: &Args) {
                     plan.scen.threads.push(ThreadSpec { kind: Kind::Block, sp_off: 0x800, pages: 2, name: None, at: None }); } } }
                 target.settle(); out.count("target.grew_between_dumps");
             }
+            if k == 1 && reexec {
+                match target.reexec(&plan.scen, &work) { Ok(()) => { out.count("target.new_program_image_between_dumps"); }
+                    Err(e) => { let mut l = Line::new("const"); l.u(1); out.case(l.s(), &format!("!{e}"), true); break; } }
+                // the configuration is the caller's: the same options, with addresses that refer to the new image
+                let keep = std::mem::replace(&mut cfg, configure(&mut Rng(cfg_seed), &plan, &target));
+                cfg.writer = keep.writer;   // ... but the WRITER is the one that already served a request
+                // (app memory / principal address of the old image would be stale by the caller's own doing: such options are left out of this history)
+            }
             if k == 1 { if let Some(i) = exiter { let _ = target.cmd(&format!("x {i}")); out.count("target.thread_exited_between_dumps"); } }
             // an earlier request of the history may FAIL (destination I/O error after the thread list was written);
             // what it recorded must not leak into the later ones
-            if !grow && k + 1 < ndumps && rng.chance(1, 3) {
+            if !grow && !reexec && k + 1 < ndumps && rng.chance(1, 3) {
                 let fail_at = rng.range(4, 12) as usize;
                 match dump_once_failing(&mut cfg, target.pid, Some(fail_at)) { Ok((Err(_), _, _)) => { out.count("history.failed_request"); } Ok((Ok(_), _, _)) => { out.count("history.failure_not_reached"); } Err(_) => {} }
                 continue;
@@ -192,7 +212,18 @@ pub fn run_reuse(a: &Args) {
                     let lv = Live { target, world, image, plan, blamed: cfg.blamed, crash: cfg.crash.as_ref().map(|c| CrashContext { inner: c.inner.clone() }), app: cfg.app.clone(), principal: cfg.principal, events };
                     out.count(&format!("dump.index{k}"));
                     emit(&mut out, &lv, &aspects);
+                    let reused_image = lv.image.as_ref().ok().cloned();
                     target = lv.target; plan = lv.plan;
+                    // the last request of the history against a FRESH writer configured the same way, at the same moment:
+                    // everything that does not depend on the instant (modules, linker list, raw /proc copies, names) is equal
+                    if k + 1 == ndumps { if let Some(img_reused) = reused_image {
+                        target.settle();
+                        let mut fresh = configure(&mut Rng(cfg_seed), &plan, &target);
+                        if let Ok((Ok(img_fresh), _, _)) = dump_once(&mut fresh, target.pid) {
+                            let mut l = Line::new("const"); l.0.push(' '); l.0.push_str(&stable_digest(&img_fresh));
+                            out.case(l.s(), &stable_digest(&img_reused), true); out.count("twin.compared_with_fresh_writer");
+                        }
+                    } }
                 }
                 Err(e) => { out.notes.push(format!("dump {k} gave no world: {e}")); }
             }
@@ -200,6 +231,17 @@ pub fn run_reuse(a: &Args) {
     }
     out.assumptions.push("between dumps the blocked target threads keep their registers and stacks; a thread told to exit is gone before the next dump".into());
     out.finish(&a.out, "2..5 dump requests on ONE configured writer against the same target (optionally after a target thread exited), under generated option sets; each dump is compared with the model exactly as a fresh writer's dump would be (listed threads, contexts, stack regions, memory list = this dump's stacks + window + application regions, exception record)");
+}
+
+/// what a dump says about the target that does not depend on the instant it was taken
+fn stable_digest(img: &[u8]) -> String {
+    let mut l = Line::bare();
+    let d = match md::Dump::parse(img) { Ok(d) => d, Err(e) => return format!("!{e}") };
+    match d.modules(img) { Ok(ms) => { l.z(ms.len()); for m in &ms { l.u(m.base).u(m.size as u64).u(fnv(&format!("{:?}", m.name))); l.u(fnv(&format!("{:?}", img.get(m.cv.rva as usize..(m.cv.rva + m.cv.size) as usize)))); } } Err(e) => return format!("!{e}") }
+    match d.dso_debug(img) { Ok(Some(dd)) => { l.u(1).u(dd.count as u64).u(dd.dynamic); for m in &dd.maps { l.u(m.addr).u(m.ld).u(fnv(&format!("{:?}", m.name))); } } Ok(None) => { l.u(0); } Err(e) => return format!("!{e}") }
+    for t in [md::LINUX_AUXV, md::LINUX_MAPS, md::LINUX_CMD_LINE, md::LINUX_ENVIRON, md::MOZ_LINUX_LIMITS] { match d.stream(img, t) { Some(Ok(b)) => { l.z(b.len()).u(fnv(&format!("{b:?}"))); } _ => { l.u(0xdead); } } }
+    if let Ok(ns) = d.thread_names(img) { l.z(ns.len()); for n in &ns { l.u(fnv(&format!("{:?}", n.name))); } }
+    l.0
 }
 
 fn hexerr(e: &str) -> String { format!("!{}", e.replace('\n', " ").chars().take(300).collect::<String>()) }
